@@ -36,4 +36,15 @@ PROPS["C20"] = {
     "assumptions": [],
 }
 
+PROPS["C19"] = {
+    "modules": ["Foundation.Proofs.C19"],
+    "facts": True,
+    "level_text": "Machine-checked for all amounts and settings: the fee is clamp(floor, cap, floor-div of amount*share/1e8, converted by the buyToken rate when foreign), zero without a share or between addresses of one user, bounded by floor and (positive) cap under the invariant TxSetFee maintains, rounded down, monotone; a successful transfer debits amount+fee, credits exactly amount and exactly fee and touches nobody else; unfunded legs fail; prices are floor(amount*rate/1e8) within the limits. The model is tied to the token code by histories through Invoke with amounts at every break point and full balance dumps after every step.",
+    "level_note": "Trusted: Lean kernel + 3 axioms; big.Int = unbounded Nat; the enclosing transaction is all-or-nothing (C04); ACL user ids as reported by the simulated ACL; model = hand transcription of token/transfer.go, buy_buyback.go, limit.go, methods.go checked by the differential run.",
+    "trusted_base": ["token/transfer.go, buy_buyback.go, proto/limit.go, methods.go modelled by Foundation.Token", "feeDecimals/RateDecimal re-extracted each run (facts_decimals)"],
+    "hypotheses": ["transfer_effect is stated for three distinct parties; aliasing (fee address = sender/recipient) is covered by the correspondence run only"],
+    "not_modelled": ["industrial (grouped) allowed-balance transfers", "deleteRate"],
+    "assumptions": [],
+}
+
 NOT_APPLICABLE = {}
